@@ -96,11 +96,10 @@ class BaseTimeSeriesForest:
         self.n_intervals = int(math.sqrt(self.series_length))
         if self.n_intervals == 0:
             self.n_intervals = 1
-        if self.series_length < self.min_interval:
-            self.min_interval = self.series_length
+        min_interval = min(self.min_interval, self.series_length)
 
         self.intervals_ = [
-            _get_intervals(self.n_intervals, self.min_interval, self.series_length, rng)
+            _get_intervals(self.n_intervals, min_interval, self.series_length, rng)
             for _ in range(self.n_estimators)
         ]
 
